@@ -41,9 +41,12 @@ const (
 	opYield
 	opOnce
 	opSelect
+	opUnlock
+	opWgAdd
+	opClock
 )
 
-var opNames = [...]string{"none", "start", "Lock", "RLock", "send", "recv", "close", "Wait", "spawned", "yield", "Once.Do", "select"}
+var opNames = [...]string{"none", "start", "Lock", "RLock", "send", "recv", "close", "Wait", "spawned", "yield", "Once.Do", "select", "Unlock", "wg.Add", "clock"}
 
 func (k opKind) String() string { return opNames[k] }
 
@@ -77,6 +80,7 @@ type Point struct {
 	Enabled    []int // thread ids in canonical order (running thread first if still enabled)
 	CurEnabled bool  // the running thread was still enabled (choosing another one is a preemption)
 	Chosen     int   // index into Enabled
+	Sleep      []int // thread ids in the sleep set at this node (partial-order reduction, mode A)
 }
 
 // Stuck describes a thread that was still unfinished when no thread was enabled.
@@ -109,6 +113,7 @@ type Exec struct {
 	Races         []Race
 	Steps         int
 	Threads       int
+	SleepBlocked  bool // the execution was cut because every enabled thread was in the sleep set (equivalent to explored ones)
 	ElisionBroken bool
 	Events        []string // optional trace (Config.Trace)
 }
@@ -120,6 +125,11 @@ type Config struct {
 	Trace     bool // record a textual event trace
 	MaxSteps  int  // machinery guard against runaway executions (0 = 1e6)
 	FuelTotal int64
+	// Mode A (partial-order reduction by sleep sets; only sound without a preemption bound):
+	// every synchronisation operation (also releases and clock reads) is its
+	// own transition, and threads in the sleep set are not scheduled.
+	Sleep    bool
+	Installs map[int][]int // choice-point index -> thread ids to add to the sleep set there
 }
 
 type sched struct {
@@ -142,6 +152,9 @@ type sched struct {
 	elisionBroken bool
 	events   []string
 	machErr  string
+	sleep    map[int]bool
+	lastOp   pending // the operation granted to the thread that ran last
+	blocked  bool
 }
 
 // S is the active scheduler (nil when no controlled execution is running).
@@ -166,8 +179,24 @@ func Now() int64 {
 	if s == nil {
 		return 0
 	}
+	if s.cfg.Sleep && s.cur != nil && !s.aborting {
+		// real-time stamps order otherwise independent operations: a visible, mutually dependent transition
+		t := s.cur
+		t.pend = pending{kind: opClock, obj: clockObj}
+		s.point(t)
+	}
 	s.clock++
 	return s.clock
+}
+
+var clockObj = new(int)
+
+// dependent reports whether two operations may not be commuted.
+func dependent(a, b pending) bool {
+	if a.obj == nil || b.obj == nil {
+		return false
+	}
+	return a.obj == b.obj
 }
 
 // CurrentThread returns the id of the running logical thread (-1 outside).
@@ -189,11 +218,20 @@ func (s *sched) trace(format string, args ...any) {
 	}
 }
 
-// pick chooses the next thread to run. Returns nil when no thread is enabled.
+// pick chooses the next thread to run. Returns nil when no thread is enabled
+// (deadlock or termination) or when every enabled thread sleeps (s.blocked).
 func (s *sched) pick() *thread {
 	var enabled []int
 	cur := s.cur
 	curEnabled := false
+	if s.cfg.Sleep && len(s.sleep) > 0 {
+		// the transition just executed wakes up the sleeping threads it is dependent with
+		for u := range s.sleep {
+			if s.threads[u].done || dependent(s.threads[u].pend, s.lastOp) {
+				delete(s.sleep, u)
+			}
+		}
+	}
 	if cur != nil && !cur.done && (cur.pend.enabled == nil || cur.pend.enabled()) {
 		curEnabled = true
 		enabled = append(enabled, cur.id)
@@ -210,19 +248,52 @@ func (s *sched) pick() *thread {
 		return nil
 	}
 	idx := 0
-	if len(enabled) > 1 {
+	if len(enabled) > 1 || (s.cfg.Sleep && s.sleep[enabled[0]]) {
 		n := len(s.choices)
-		if n < len(s.prefix) {
+		if s.cfg.Sleep && len(enabled) > 1 {
+			for _, u := range s.cfg.Installs[n] {
+				s.sleep[u] = true
+			}
+		}
+		fromPrefix := false
+		if len(enabled) > 1 && n < len(s.prefix) {
 			idx = s.prefix[n]
+			fromPrefix = true
 			if idx < 0 || idx >= len(enabled) {
 				s.machErr = fmt.Sprintf("replay diverged: choice %d of prefix is %d but only %d threads are enabled", n, idx, len(enabled))
 				idx = 0
 			}
 		}
-		s.choices = append(s.choices, idx)
-		s.points = append(s.points, Point{Enabled: enabled, CurEnabled: curEnabled, Chosen: idx})
+		if s.cfg.Sleep && !fromPrefix {
+			idx = -1
+			for i, u := range enabled {
+				if !s.sleep[u] {
+					idx = i
+					break
+				}
+			}
+			if idx < 0 {
+				s.blocked = true
+				return nil
+			}
+		}
+		if len(enabled) > 1 {
+			var sl []int
+			for _, u := range enabled {
+				if s.sleep[u] {
+					sl = append(sl, u)
+				}
+			}
+			s.choices = append(s.choices, idx)
+			s.points = append(s.points, Point{Enabled: enabled, CurEnabled: curEnabled, Chosen: idx, Sleep: sl})
+		}
 	}
-	return s.threads[enabled[idx]]
+	next := s.threads[enabled[idx]]
+	s.lastOp = next.pend
+	if s.cfg.Sleep {
+		delete(s.sleep, next.id)
+	}
+	return next
 }
 
 // point is called by the running thread t after it has published t.pend. It
@@ -382,7 +453,7 @@ func RunOnce(cfg Config, prefix []int, threads []ThreadSpec) *Exec {
 		panic(MachineryError{"nested controlled execution"})
 	}
 	s := &sched{cfg: cfg, prefix: prefix, doneCh: make(chan struct{}, 1), ackCh: make(chan struct{}, 1),
-		chans: map[uintptr]*chanState{}}
+		chans: map[uintptr]*chanState{}, sleep: map[int]bool{}}
 	if cfg.Race {
 		s.shadow = map[uintptrKey]*shadowCell{}
 		s.raceSeen = map[string]bool{}
@@ -404,10 +475,10 @@ func RunOnce(cfg Config, prefix []int, threads []ThreadSpec) *Exec {
 	s.cur = first
 	first.wake <- struct{}{}
 	<-s.doneCh
-	ex := &Exec{Choices: s.choices, Points: s.points, Deadlock: s.deadlock, Steps: s.steps, Threads: len(s.threads)}
+	ex := &Exec{Choices: s.choices, Points: s.points, Deadlock: s.deadlock && !s.blocked, SleepBlocked: s.blocked, Steps: s.steps, Threads: len(s.threads)}
 	// collect stuck threads, then unwind them
 	for _, t := range s.threads {
-		if !t.done {
+		if !t.done && !s.blocked {
 			ex.Stuck = append(ex.Stuck, Stuck{Thread: t.id, Name: t.name, Op: t.pend.kind.String(), Object: describe(t.pend.obj), Site: t.pend.site, Library: t.library})
 		}
 	}
